@@ -16,16 +16,17 @@
     does not hold; `rename_onto_existing_breaks` shows the condition is needed: the Go bookkeeping (and the model)
     ends with two columns of one name when it is violated.
 
-  * `names_and_positions` — **the reader simulates the reference engine on tables, column names and column positions**:
+  * `names_positions_types` / `names_and_positions` — **the reader simulates the reference engine on tables, column
+    names, column positions and column types**:
     for every script of any length over the vocabulary without RENAME COLUMN / RENAME INDEX / COMMENT ON that the
     reference engine accepts from the empty schema (with or without referential checks), the MySQL reader model loads
     it without error and the loaded model has exactly the reference schema's tables in the same order, each with
-    exactly its column names in the same order; one commuting square per statement kind (Proofs/FidelitySteps:
+    exactly its column names and type texts in the same order; one commuting square per statement kind (Proofs/FidelitySteps:
     CREATE TABLE with its ColumnDef visits through the cursor, DROP TABLE, ADD COLUMN / FIRST / AFTER via
     `SetColumnPosition` + `swapOrder`, DROP COLUMN, MODIFY COLUMN, keys, indexes, foreign keys), carried by the relation
     `Rel` (consistent maps, no pending position, every record created in this history, same view).
 
-  Missing: the same for types, options, keys, indexes and foreign keys (L-read beyond names), and for RENAME COLUMN (a
+  Missing: the same for options, keys, indexes and foreign keys (L-read beyond names and types), and for RENAME COLUMN (a
   renamed record is no longer a plain `add` record: recorded region `rename-column`).  They are covered by correspondence (white-box state after every script, including the position maps,
   plus `invCheck` on the Go state) and by the executable predicate (dump → grammar → reference engine) on every case.
 -/
@@ -98,6 +99,12 @@ theorem names_and_positions (rc : Bool) (ss : List Stmt) (db : DB) (hs : ss.all 
     ∃ m, ReaderMysql.run {} ss = .ok m ∧ colView m = specView db ∧ m.Inv ∧ m.NoPending :=
   ReaderMysql.fidelity rc ss db hs he
 
+/-- … and every column carries exactly the reference schema's type -/
+theorem names_positions_types (rc : Bool) (ss : List Stmt) (db : DB) (hs : ss.all Stmt.colSafe = true)
+    (he : execAll rc [] ss = some db) :
+    ∃ m, ReaderMysql.run {} ss = .ok m ∧ ReaderMysql.typedView m = ReaderMysql.typedSpec db :=
+  ReaderMysql.fidelity_typed rc ss db hs he
+
 -- non-vacuity: a two-table script with positional adds interleaved across tables, a drop and a modify
 def exScript : List Stmt :=
   [.createTable "t" 0 [{ name := "a", typ := "int(11)" }, { name := "b", typ := "int(11)" }] ["a"],
@@ -111,6 +118,9 @@ def exScript : List Stmt :=
 example : exScript.all Stmt.colSafe = true := by decide
 example : (execAll true [] exScript).map specView = some [("t", ["z", "a", "c"]), ("u", ["y", "x"])] := by decide
 example : (ReaderMysql.run {} exScript).toOption.map colView = some [("t", ["z", "a", "c"]), ("u", ["y", "x"])] := by rfl
+example : (ReaderMysql.run {} exScript).toOption.map ReaderMysql.typedView =
+    some [("t", [("z", some "text"), ("a", some "int(11)"), ("c", some "longtext")]),
+          ("u", [("y", some "text"), ("x", some "int(11)")])] := by rfl
 
 /-- regenerated fact: in every `Parser*` function the parse call and its `return err` precede the first edit -/
 theorem parse_before_edit : ∀ p ∈ Facts.parseBeforeEdit, p.2 = true := by decide
